@@ -123,8 +123,8 @@ CLAIMED = {
              'unchanged; a successful merge keeps T_ref, takes the union of ranges, and its table is the union map (other wins); a conflicting '
              'datum is rejected; overwrite never is; a file naming one group twice is rejected and distinct names are all accepted; ORDER-FREENESS of '
              'the Cp table and the valid range: a table is accepted iff its data agree with what is there, whether two files are both accepted does '
-             'not depend on their order, and when they are the merged table is the same map and the merged range the same interval (for the '
-             'reference values H, S and whole include trees order-freeness is decided by the tree oracle). IDEMPOTENCE: merging the same correlation a second '
+             'not depend on their order, and when they are the merged table is the same map and the merged range the same interval (for '
+             'whole include trees order-freeness is decided by the tree oracle; for files sharing one T_ref the merged reference enthalpy AND entropy are the other file\'s value where given - after the tolerance comparison - else the value there: C13_update_H_same_Tref, C13_update_S_same_Tref). IDEMPOTENCE: merging the same correlation a second '
              'time succeeds and returns the identical correlation - table, range, reference enthalpy and entropy, re-fit (C13_update_twice, for any '
              'reflexive isclose). '
              'Tie: correspondence of update sequences (state after every step) and of include trees; direct oracle: union / conflict / '
